@@ -92,7 +92,9 @@ func segmentCase(c *ctx, k, h1, m1, h2, m2 int, tag string) {
 	profile := types.TimeProfile{ID: 29, From: types.ToDate(2024, 1, 1), To: types.ToDate(2024, 12, 31),
 		Weekdays: types.Weekdays{}, Segments: segs}
 	out := guard(func() string {
-		_, err := u.SetTimeProfile(405419896, profile)
+		// (controllers of every "model": nine-digit serial numbers starting with 1, 2, 3, 4, short and ten-digit ones)
+		serial := []uint32{405419896, 123456789, 201020304, 303986753, 100000000, 299999999, 99, 4294967295}[segmentCases%8]
+		_, err := u.SetTimeProfile(serial, profile)
 		switch {
 		case len(d.Calls) == 1: // the request went out (the scripted silence then times out)
 			return "accept"
@@ -239,7 +241,7 @@ func streamOrder(c *ctx) {
 	for i := 0; i < 3000*c.scale; i++ {
 		a := r.Intn(1441)
 		b := r.Intn(1441)
-		switch r.Intn(4) {
+		switch r.Intn(6) {
 		case 0:
 			b = a
 		case 1:
@@ -247,6 +249,10 @@ func streamOrder(c *ctx) {
 			if b < 0 || b > 1440 {
 				b = a
 			}
+		case 2: // the ends of the day on either side
+			b = rng.Pick(r, 0, 1440, 1439, 1)
+		case 3:
+			a = rng.Pick(r, 0, 1440, 1439, 1)
 		}
 		segmentCase(c, 1+r.Intn(3), a/60, a%60, b/60, b%60, "segment")
 	}
